@@ -150,7 +150,13 @@ def r_metadata(db, rep):
             ml_writes = [(lv, w) for lv, w in writes if access_path(c, lv) == ("this", "maxlength")]
             rep.inst(c.loc, "%s: %d input reads, %d element-count updates, %d maxlength updates" % (c.qn, len(nexts), len(el_writes), len(ml_writes)))
             if not nexts:
-                # derived kinds: copy both from the wrapped dictionary
+                # derived kinds: copy both from the wrapped dictionary - the one the input iterator is handed to
+                wrapped = [n for n in c.nodes() if n["k"] == "CXXConstructExpr" and (n.get("rec") or "").startswith("StringDictionary") and
+                           any(access_path(c, a) == ("param", 0) for a in n.get("args", []))]
+                if not wrapped:
+                    rep.notes.append("%s neither reads its input with next() nor hands it to another dictionary (it scans the text itself): "
+                                     "how strings are counted is not decided" % c.qn)
+                    continue
                 rep.ob()
                 for fld, ws in (("elements", el_writes), ("maxlength", ml_writes)):
                     ok = False
@@ -203,7 +209,13 @@ def r_metadata(db, rep):
                     ml_sites.append(nx)
             # multi-pass builders read the input more than once: one pass must do the counting, none may count twice
             rep.ob()
-            if not counted_sites:
+            # the count is not kept by +1 steps at all but derived (a closed form after the loop, per-block subtotals added up): a
+            # value-level question, not decided here
+            derived_count = not incs and any(not ((w["k"] == "UnaryOperator") or const_value(w.get("rhs")) is not None) for lv, w in el_writes)
+            if derived_count:
+                rep.notes.append("%s: the element count is derived (%s) rather than incremented per string: undecided" % (
+                    c.qn, ", ".join("line %s" % w.get("l") for lv, w in el_writes if const_value(w.get("rhs")) is None and w["k"] != "UnaryOperator")))
+            if not counted_sites and not derived_count:
                 rep.viol("%s#elements-miscounted" % c.qn, c.nloc(nexts[0]),
                          "%s: no pass over the input counts every string it reads exactly once into the element count "
                          "(some path from a read to the next read, or to the end, skips the increment)" % c.qn, c.qn)
@@ -213,7 +225,22 @@ def r_metadata(db, rep):
                     rep.viol("%s#elements-double" % c.qn, c.nloc(nexts[0]), "%s can count one consumed string twice" % c.qn, c.qn)
                     break
             rep.ob()
-            if not ml_sites:
+            # maxlength folded in from an intermediate maximum (per-block statistics): the link to each string's length goes through
+            # another variable - undecided
+            lenvars = set()
+            for nx in nexts:
+                for a in nx.get("args", []):
+                    sa = strip(a)
+                    if sa["k"] == "UnaryOperator" and sa["op"] == "&":
+                        lenvars.add(access_path(c, sa["sub"]))
+            indirect = [w for lv, w in ml_writes if w.get("rhs") is not None and const_value(w["rhs"]) is None and
+                        not any(access_path(c, x) in lenvars for x in walk(w["rhs"]) if x["k"] == "DeclRefExpr") and
+                        access_path(c, w["rhs"]) is None or (w.get("rhs") is not None and (access_path(c, w["rhs"]) or ("",))[0] == "local"
+                                                              and access_path(c, w["rhs"]) not in lenvars)]
+            if not ml_sites and indirect:
+                rep.notes.append("%s: maxlength is raised from an intermediate value (line %s), not directly from the length just read: undecided" % (
+                    c.qn, indirect[0].get("l")))
+            elif not ml_sites:
                 rep.viol("%s#maxlength" % c.qn, c.nloc(nexts[0]),
                          "%s does not raise maxlength to (at least) the length of each string it reads under a `len > maxlength` test" % c.qn, c.qn)
 
